@@ -6,6 +6,7 @@ import (
 	"errors"
 	"flag"
 	"fmt"
+	"hash/crc32"
 	"math/rand"
 	"regexp"
 	"sort"
@@ -248,6 +249,22 @@ func dslPrint(args []string) error {
 						if b, err := json.Marshal(g); err == nil {
 							doc = shuffleJSON(b, rng)
 						}
+					}
+				}
+			}
+			// the stored form of a model carries an id (v%3 = 1: an id of its own, 2: one id shared by every model of the run):
+			// the DSL has no place for it, the output is a function of the content
+			if v%3 != 0 {
+				id := "01HVMMBCMGZNT3SED4Z17ECXCA"
+				if v%3 == 1 {
+					id = fmt.Sprintf("01HV%022X", crc32.ChecksumIEEE([]byte(inp.ID)))
+				}
+				pm.Id = id
+				var g map[string]any
+				if json.Unmarshal(doc, &g) == nil {
+					g["id"] = id
+					if b, err := json.Marshal(g); err == nil {
+						doc = shuffleJSON(b, rng)
 					}
 				}
 			}
